@@ -214,6 +214,10 @@ def focused(rng):
     """constructs whose rendering does string surgery or bookkeeping: footnote items, repeated images, task lists, tables"""
     w = lambda: rng.choice(gen.WORDS + ["map", "top", "a/", "p", "help"])
     r = rng.random()
+    if r < 0.12:
+        # notes whose last lines look like a block (the item renderer cuts the closing "</p>" off the rendered text)
+        tail = rng.choice(["  - one\n  - two\n", "  > quoted %s\n" % w(), "  1. %s\n" % w(), "\n    ```\n    %s\n    ```\n" % w(), "  ***\n", "\n    | a |\n    |---|\n    | %s |\n" % w(), "  # %s\n" % w(), "\n      indented %s\n" % w()])
+        return "text[^1] %s\n\n[^1]: see %s\n%s\nafter\n" % (w(), w(), tail)
     if r < 0.4:
         end = rng.choice([w(), "*%s*" % w(), "`%s`" % w(), "[%s](/u)" % w(), "^%s^" % w(), "~~%s~~" % w(), w() + ".", "<b>%s</b>" % w(), w() + " /", w() + "p"])
         body = "text[^1] and[^k]\n\n[^1]: see the %s %s\n\n[^k]: %s\n\n    second %s\n" % (w(), end, w(), end)
